@@ -74,17 +74,73 @@ def lemma_instances(libm):
     return out
 
 
-def build_smt2(q, extra_constraints=(), want_model=True):
+_vars_cache = {}
+
+
+def expr_vars(e):
+    """ids of the uninterpreted constants occurring in e (cached per AST id)"""
+    key = e.get_id()
+    r = _vars_cache.get(key)
+    if r is not None and r[0].eq(e):
+        return r[1]
+    out = set()
+    seen = set()
+    stack = [e]
+    while stack:
+        x = stack.pop()
+        i = x.get_id()
+        if i in seen:
+            continue
+        seen.add(i)
+        if z3.is_app(x):
+            if x.num_args() == 0:
+                if x.decl().kind() == z3.Z3_OP_UNINTERPRETED:
+                    out.add(x.decl().name())
+            else:
+                if x.decl().kind() == z3.Z3_OP_UNINTERPRETED:
+                    out.add('fn:' + x.decl().name())   # uninterpreted functions couple everything that uses them
+                stack.extend(x.children())
+    r = frozenset(out)
+    _vars_cache[key] = (e, r)      # keep the AST alive: ids are recycled after garbage collection
+    return r
+
+
+def slice_constraints(constraints, goal_exprs):
+    """constraints sharing variables (transitively) with the goal; the rest is returned separately.
+    Sound for unsat; for sat the remainder must be solved too to obtain a full model (done by the caller)."""
+    need = set()
+    for g in goal_exprs:
+        need |= expr_vars(g)
+    items = [(c, expr_vars(c)) for c in constraints]
+    used = [False] * len(items)
+    changed = True
+    while changed:
+        changed = False
+        for i, (c, vs) in enumerate(items):
+            if not used[i] and (vs & need or not vs):
+                used[i] = True
+                if not vs <= need:
+                    need |= vs
+                    changed = True
+    return [c for i, (c, vs) in enumerate(items) if used[i]], [c for i, (c, vs) in enumerate(items) if not used[i]]
+
+
+def build_smt2(q, extra_constraints=(), want_model=True, sliced=True, only=None):
     s = z3.Solver()
-    for c in q.constraints:
-        s.add(c)
-    for c in extra_constraints:
-        s.add(c)
-    if q.libm:
-        for c in lemma_instances(q.libm):
-            s.add(c)
     negs = q.negs
-    s.add(negs[0] if len(negs) == 1 else z3.Or(*negs))
+    goal = negs[0] if len(negs) == 1 else z3.Or(*negs)
+    cons = list(q.constraints) + list(extra_constraints)
+    if q.libm:
+        cons += lemma_instances(q.libm)
+    if only is not None:
+        cons = only
+        goal = z3.BoolVal(True)
+    elif sliced:
+        cons, rest = slice_constraints(cons, [goal])
+        q.sliced_rest = rest
+    for c in cons:
+        s.add(c)
+    s.add(goal)
     body = s.to_smt2()
     body = re.sub(r'^\(set-info :status [a-z]+\)\n', '', body, flags=re.M)
     # z3 prints its internal "divisor known non-zero / hardware semantics" operators; they are the SMT-LIB ones
@@ -336,3 +392,85 @@ def _bits_of_concrete(kind, v):
     if kind == 'f32':
         return struct.unpack('<I', struct.pack('<f', float(v)))[0]
     return 0
+
+
+def solve_inproc(q, timeout_ms):
+    """decide a query with the z3 python API (z3 5.1) on the cone-of-influence slice; None if undecided.
+    On sat the model is completed on the independent remainder so that the replay follows the same path."""
+    t0 = time.time()
+    negs = q.negs
+    goal = negs[0] if len(negs) == 1 else z3.Or(*negs)
+    cons = list(q.constraints)
+    if q.libm:
+        cons += lemma_instances(q.libm)
+    rel, rest = slice_constraints(cons, [goal])
+    try:
+        s = z3.Solver()
+        s.set('timeout', timeout_ms)
+        for c in rel:
+            s.add(c)
+        s.add(goal)
+        r = s.check()
+        if r == z3.unsat:
+            return {'status': 'unsat', 'solver': 'z3-5.1-inproc', 'time': time.time() - t0, 'answers': {}, 'output': ''}
+        if r != z3.sat:
+            return None
+        m = s.model()
+        m2 = None
+        if rest:
+            s2 = z3.Solver()
+            s2.set('timeout', timeout_ms)
+            for c in rest:
+                s2.add(c)
+            r2 = s2.check()
+            if r2 == z3.unsat:
+                return {'status': 'unsat', 'solver': 'z3-5.1-inproc', 'time': time.time() - t0, 'answers': {}, 'output': ''}
+            if r2 != z3.sat:
+                return None
+            m2 = s2.model()
+        rest_vars = set()
+        for c in rest:
+            rest_vars |= expr_vars(c)
+        vals = []
+        for kind, label, v in q.inputs:
+            if not isinstance(v, z3.ExprRef):
+                vals.append(_bits_of_concrete(kind, v))
+                continue
+            mm = m2 if (m2 is not None and v.decl().name() in rest_vars) else m
+            ev = mm.eval(v, model_completion=True)
+            vals.append(_model_bits(kind, v, ev))
+        if any(x is None for x in vals):
+            return None
+        return {'status': 'sat', 'solver': 'z3-5.1-inproc', 'time': time.time() - t0, 'answers': {}, 'output': '', 'vals': vals}
+    except z3.Z3Exception:
+        return None
+
+
+def _model_bits(kind, v, ev):
+    try:
+        if kind in ('u32', 'u64'):
+            return ev.as_long()
+        if kind == 'bool':
+            return 1 if z3.is_true(ev) else 0
+        if z3.is_real(v):
+            if z3.is_rational_value(ev):
+                d = float(Fraction(ev.numerator_as_long(), ev.denominator_as_long()))
+            elif z3.is_algebraic_value(ev):
+                a = ev.approx(20)
+                d = float(Fraction(a.numerator_as_long(), a.denominator_as_long()))
+            else:
+                return None
+            return struct.unpack('<Q', struct.pack('<d', d))[0] if kind == 'f64' else struct.unpack('<I', struct.pack('<f', d))[0]
+        # floating point
+        bv_ = z3.simplify(z3.fpToIEEEBV(ev))
+        if z3.is_bv_value(bv_):
+            return bv_.as_long()
+        if z3.is_fp_value(ev) or True:
+            s_ = z3.Solver()
+            x = z3.BitVec('bits!m', 64 if kind == 'f64' else 32)
+            s_.add(z3.fpToIEEEBV(ev) == x)
+            if s_.check() == z3.sat:
+                return s_.model()[x].as_long()
+        return None
+    except Exception:
+        return None
